@@ -25,7 +25,7 @@ Regs0 == [A |-> 10, F |-> 85, B |-> 17, C |-> 0, D |-> 0, E |-> 0, H |-> 64, L |
           IXH |-> 80, IXL |-> 32, IYH |-> 96, IYL |-> 48, SP |-> 61440, PC |-> 256, I |-> 9, R |-> 10,
           IFF1 |-> FALSE, IFF2 |-> FALSE, IM |-> 0]
 Ctx0 == [r |-> Regs0, m |-> BiosCells, dev |-> [mk |-> "const", seed |-> 0, val |-> 0, len |-> 65536],
-         io |-> [ik |-> "console", seed |-> 0, len |-> 0], iom |-> <<>>, nin |-> 0, rd |-> <<>>, wr |-> <<>>, pio |-> <<>>,
+         io |-> [ik |-> "console", seed |-> 0, len |-> 0], iom |-> <<>>, nin |-> 0, seen |-> <<>>, rd |-> <<>>, wr |-> <<>>, pio |-> <<>>,
          halt |-> FALSE, hc |-> <<0, 0>>, ovl |-> NoOvl, v |-> 0, u |-> 0, ralt |-> FALSE, tag |-> "",
          pend |-> None, aei |-> FALSE, rslack |-> 0]
 
